@@ -489,6 +489,8 @@ class ProgramGen:
         decls = [self.st_typedecl] * 6 + [self.st_parameter, self.st_dimension, self.st_attr,
                                            self.st_common, self.st_equivalence, self.st_namelist,
                                            self.st_external, self.st_save, self.st_procdecl]
+        if not ctx.in_interface and not ctx.in_module:
+            decls += [self.st_cray_pointer]
         if not ctx.in_interface:
             decls += [self.derived_type, self.interface_block, self.enum_def, self.st_data]
             if not ctx.in_module:
@@ -648,6 +650,17 @@ class ProgramGen:
         else:
             colons = "{+:: +}" if self.p(0.5) else ":: "
         self.S("attr_stmt", "%s %s%s" % (kw, colons, names))
+
+    def st_cray_pointer(self, ctx):
+        """Cray pointer statement (an extension fparser2 enables by default): POINTER (pointer, pointee[(array-spec)]) [, ...]"""
+        r = self.r
+        decls = []
+        for _ in range(r.choice([1, 1, 2, 3])):
+            pointee = self.env.array()
+            if self.p(0.5):
+                pointee += "(%s)" % r.choice(["10", "2, 3", "0:9", "n", "5, *", "*"])
+            decls.append("(%s, %s)" % (self.env.scalar(), pointee))
+        self.S("cray_pointer", "pointer %s" % ", ".join(decls))
 
     def st_intent(self, ctx):
         self.S("intent", "intent(%s) %s%s" % (self.r.choice(["in", "out", "inout", "in out" if False else "inout"]),
